@@ -72,21 +72,19 @@ Proof.
   apply andb_true_iff in H as [_ H]. apply Z.eqb_eq in H. subst. eauto.
 Qed.
 
-(* operations of the HTTPReverseProxy itself with requests routed and dialled without a route change
-   in between.  Excluded, and treated in the refutations below: routes put into the Routers behind
-   its back by server/group/http.go, and requests whose dial is overtaken by a Register/UnRegister *)
-Definition hq_plain_op (o : hp_op) : Prop :=
+(* stage 1: everything except group operations and overtaken requests *)
+Definition hq_basic_op (o : hp_op) : Prop :=
   match o with
   | HGroupJoin _ _ _ _ _ => False | HGroupLeave _ _ _ => False
   | HBeginRaced _ _ _ _ _ _ _ _ => False
   | _ => True
   end.
 
-Lemma hq_step_inv st o st' out : hq_plain_op o -> hq_inv st -> hp_step st o = Some (st', out) -> hq_inv st'.
+Lemma hq_step_inv0 st o st' out : hq_basic_op o -> hq_inv st -> hp_step st o = Some (st', out) -> hq_inv st'.
 Proof.
   intros Hng Hinv Hs. pose proof Hinv as [Hwf [Hids [Huniq [Hidle Hbusy]]]].
   destruct o as [d l u owner|d l u|rid cc proto host path user dialed|rid|name d l u owner|d l u|rid cc proto host path user dialed btw|chost cuser];
-    simpl in Hs; simpl in Hng; try contradiction; unfold hp_roundtrip, hp_key_of in Hs.
+    simpl in Hs; simpl in Hng; try contradiction; unfold hp_roundtrip, hp_key_of, hp_routed in Hs.
   - (* Register *)
     destruct (rt_add (hp_routes st) d l u (mkRc d l u owner (hp_seq st + 1) [])) as [rs|] eqn:A;
       inversion Hs; subst; clear Hs.
@@ -144,6 +142,122 @@ Proof.
     destruct (rt_get_vhost (hp_routes st) (rt_canon_or_empty chost) [] cuser); inversion Hs; subst; exact Hinv.
 Qed.
 
+(* ---------- requests overtaken by a Register / UnRegister between routing and round trip ---------- *)
+(* operations of the HTTPReverseProxy itself, overtaken requests included.  Excluded, and treated in
+   the refutation below: routes put into the Routers behind its back by server/group/http.go *)
+Definition hq_plain_op (o : hp_op) : Prop :=
+  match o with
+  | HGroupJoin _ _ _ _ _ => False | HGroupLeave _ _ _ => False
+  | _ => True
+  end.
+
+(* what the routing decision hands to the round trip: the pool key names the routed registration *)
+Definition hq_routed_ok (st : hp_state) (routed : option hroute) (key : hp_key) : Prop :=
+  match routed with
+  | Some r =>
+      (exists d l u e, key = KRoute d l u e (rc_id (rt_pay r))) /\
+      rc_id (rt_pay r) <= hp_seq st /\
+      (forall r' : hroute, rp_in r' (hp_routes st) -> rc_id (rt_pay r') = rc_id (rt_pay r) ->
+                           rc_owner (rt_pay r') = rc_owner (rt_pay r))
+  | None => exists h, key = KHost h
+  end.
+
+Lemma hq_routed_ok_here st host path user : hq_inv st ->
+  hq_routed_ok st (hp_routed st host path user) (hp_key_of st host path user).
+Proof.
+  intros [Hwf [Hids [Huniq _]]]. unfold hp_routed, hp_key_of, hq_routed_ok.
+  destruct (rt_get_vhost (hp_routes st) (rt_canon_or_empty host) path user) as [r|] eqn:G; [|eauto].
+  destruct (rq_get_vhost_best _ _ _ _ _ Hwf G) as [Hin _].
+  split; [simpl; eauto|]. split; [apply Hids; exact Hin|].
+  intros r' Hr' E. rewrite (Huniq r' r Hr' Hin E). reflexivity.
+Qed.
+
+(* Register / UnRegister as state transformers: facts *)
+Lemma hq_reg_step_facts st o : hq_inv st ->
+  let st1 := hp_reg_step st o in
+  hq_inv st1 /\ hp_seq st <= hp_seq st1 /\
+  (forall r : hroute, rp_in r (hp_routes st1) -> rp_in r (hp_routes st) \/ hp_seq st < rc_id (rt_pay r)) /\
+  ((forall r : hroute, rp_in r (hp_routes st) -> rp_in r (hp_routes st1)) \/ hp_idle st1 = []).
+Proof.
+  intros Hinv. pose proof Hinv as [Hwf _].
+  destruct o as [d l u owner|d l u|rid cc proto host path user dialed|rid|name d l u owner|d l u|rid cc proto host path user dialed btw|chost cuser];
+    cbn [hp_reg_step]; try (split; [exact Hinv|split; [lia|split; [intros; left; assumption|left; intros; assumption]]]).
+  - destruct (rt_add (hp_routes st) d l u (mkRc d l u owner (hp_seq st + 1) [])) as [rs|] eqn:A.
+    + assert (S : hp_step st (HRegister d l u owner) = Some (mkHp rs (hp_seq st + 1) (hp_idle st) (hp_busy st), HRegOk))
+        by (simpl; rewrite A; reflexivity).
+      destruct (rp_add_ok _ _ _ _ _ _ Hwf A) as [_ Hin'].
+      split; [exact (hq_step_inv0 st (HRegister d l u owner) _ _ I Hinv S)|]. simpl. split; [lia|]. split.
+      * intros r Hr. apply Hin' in Hr as [->|Hr]; [right; simpl; lia|left; exact Hr].
+      * left. intros r Hr. apply Hin'. right; exact Hr.
+    + assert (S : hp_step st (HRegister d l u owner) = Some (mkHp (hp_routes st) (hp_seq st + 1) (hp_idle st) (hp_busy st), HRegConflict))
+        by (simpl; rewrite A; reflexivity).
+      split; [exact (hq_step_inv0 st (HRegister d l u owner) _ _ I Hinv S)|]. simpl. split; [lia|]. split; [intros; left; assumption|left; intros; assumption].
+  - assert (S : hp_step st (HUnRegister d l u) = Some (mkHp (rt_del (hp_routes st) d l u) (hp_seq st) [] (hp_busy st), HDone)) by reflexivity.
+    destruct (rp_del_ok (hp_routes st) d l u Hwf) as [_ Hin'].
+    split; [exact (hq_step_inv0 st (HUnRegister d l u) _ _ I Hinv S)|]. simpl. split; [lia|]. split.
+    + intros r Hr. left. apply Hin' in Hr. tauto.
+    + right. reflexivity.
+Qed.
+
+Lemma hq_routed_ok_mono st st1 routed key :
+  hp_seq st <= hp_seq st1 ->
+  (forall r : hroute, rp_in r (hp_routes st1) -> rp_in r (hp_routes st) \/ hp_seq st < rc_id (rt_pay r)) ->
+  hq_routed_ok st routed key -> hq_routed_ok st1 routed key.
+Proof.
+  intros Hseq Hr. unfold hq_routed_ok. destruct routed as [r|]; [|tauto].
+  intros [Hk [Hi Ho]]. split; [exact Hk|]. split; [lia|].
+  intros r' Hr' E. destruct (Hr r' Hr') as [Hold|Hnew]; [apply Ho; assumption|lia].
+Qed.
+
+(* the round trip keeps the invariant *)
+Lemma hq_roundtrip_inv st routed key rid dialed st' out : hq_inv st -> hq_routed_ok st routed key ->
+  hp_roundtrip st routed key rid dialed = Some (st', out) -> hq_inv st'.
+Proof.
+  intros Hinv Hok Hs. pose proof Hinv as [Hwf [Hids [Huniq [Hidle Hbusy]]]].
+  unfold hp_roundtrip in Hs. destruct dialed.
+  - destruct routed as [r|]; inversion Hs; subst; clear Hs; [|exact Hinv].
+    destruct Hok as [[d [l [u [e Hk]]]] [Hi Ho]].
+    split; [exact Hwf|]. simpl. split; [exact Hids|]. split; [exact Huniq|]. split; [exact Hidle|].
+    intros i c [Hc|Hc]; [|apply (Hbusy i), Hc]. inversion Hc; subst.
+    unfold hq_conn_ok. simpl. split; [exact Hi|].
+    intros r' Hr' E. symmetry. apply Ho; assumption.
+  - destruct (hp_take key (hp_idle st)) as [[c idle']|] eqn:T; [|discriminate].
+    inversion Hs; subst; clear Hs. destruct (hq_take_spec _ _ _ _ T) as [Hc [_ Hsub]].
+    split; [exact Hwf|]. simpl. split; [exact Hids|]. split; [exact Huniq|].
+    split; [intros x Hx; apply Hidle, Hsub, Hx|].
+    intros i x [Hx|Hx]; [inversion Hx; subst; apply Hidle, Hc|apply (Hbusy i), Hx].
+Qed.
+
+(* ... and reaches the owner of the ROUTED registration, or nothing when there was none *)
+Lemma hq_roundtrip_out st routed key rid dialed st' out : hq_inv st -> hq_routed_ok st routed key ->
+  (forall r, routed = Some r -> rp_in r (hp_routes st) \/ hp_idle st = []) ->
+  hp_roundtrip st routed key rid dialed = Some (st', out) ->
+  out = match routed with Some r => HReached (rc_owner (rt_pay r)) | None => HNotFound end.
+Proof.
+  intros [Hwf [Hids [Huniq [Hidle Hbusy]]]] Hok Hreg Hs. unfold hp_roundtrip in Hs. destruct dialed.
+  - destruct routed as [r|]; inversion Hs; subst; reflexivity.
+  - destruct (hp_take key (hp_idle st)) as [[c idle']|] eqn:T; [|discriminate].
+    inversion Hs; subst; clear Hs. destruct (hq_take_spec _ _ _ _ T) as [Hc [Hk _]].
+    specialize (Hidle _ Hc). unfold hq_conn_ok in Hidle.
+    destruct routed as [r|].
+    + destruct Hok as [[d [l [u [e ->]]]] _].
+      destruct (Hreg r eq_refl) as [Hin|Hnil]; [|rewrite Hnil in Hc; destruct Hc].
+      apply hq_key_eqb_id in Hk as [d' [l' [u' [e' Hk]]]]. rewrite Hk in Hidle.
+      destruct Hidle as [_ Hb]. rewrite (Hb r Hin eq_refl). reflexivity.
+    + destruct Hok as [h ->]. destruct (cn_key c); [simpl in Hk; discriminate|contradiction].
+Qed.
+
+Lemma hq_step_inv st o st' out : hq_plain_op o -> hq_inv st -> hp_step st o = Some (st', out) -> hq_inv st'.
+Proof.
+  intros Hng Hinv Hs.
+  destruct o as [d l u owner|d l u|rid cc proto host path user dialed|rid|name d l u owner|d l u|rid cc proto host path user dialed btw|chost cuser];
+    simpl in Hng; try contradiction; try (refine (hq_step_inv0 st _ st' out _ Hinv Hs); exact I).
+  cbn [hp_step] in Hs.
+  destruct (hq_reg_step_facts st btw Hinv) as [Hinv1 [Hseq [Hr _]]].
+  eapply hq_roundtrip_inv; [exact Hinv1| |exact Hs].
+  eapply hq_routed_ok_mono; [exact Hseq|exact Hr|apply hq_routed_ok_here; exact Hinv].
+Qed.
+
 Lemma hq_run_from_inv ops : Forall hq_plain_op ops -> forall st st', hq_inv st -> hp_run_from st ops = Some st' -> hq_inv st'.
 Proof.
   induction 1 as [|o ops Ho _ IH]; simpl; intros st st' Hi Hr; [inversion Hr; subst; exact Hi|].
@@ -154,24 +268,36 @@ Qed.
 Lemma hq_run_inv ops st : Forall hq_plain_op ops -> hp_run ops = Some st -> hq_inv st.
 Proof. intro H. apply (hq_run_from_inv ops H), hq_inv_init. Qed.
 
-(* the central statement about one request in a state satisfying the invariant *)
+(* the central statement about one request in a state satisfying the invariant: it reaches the owner
+   of the most specific route registered when it was ROUTED (state [st]), whatever is registered or
+   removed before its round trip *)
+Lemma hq_routed_spec st host path user : rp_wf (hp_routes st) ->
+  match hp_routed st host path user with Some r => HReached (rc_owner (rt_pay r)) | None => HNotFound end =
+  hp_spec_out rc_owner (rt_abs (hp_routes st)) host path user.
+Proof.
+  intro Hwf. unfold hp_spec_out, hp_routed. rewrite <- (rq_refines (hp_routes st) _ path user Hwf). reflexivity.
+Qed.
+
 Lemma hq_begin_spec st rid cc proto host path user dialed st' out : hq_inv st ->
   hp_step st (HBegin rid cc proto host path user dialed) = Some (st', out) ->
   out = hp_spec_out rc_owner (rt_abs (hp_routes st)) host path user.
 Proof.
-  intros [Hwf [Hids [Huniq [Hidle Hbusy]]]] Hs. unfold hp_spec_out.
-  rewrite <- (rq_refines (hp_routes st) _ path user Hwf).
-  simpl in Hs. unfold hp_roundtrip, hp_key_of in Hs. destruct dialed.
-  - destruct (rt_get_vhost (hp_routes st) (rt_canon_or_empty host) path user) as [r|] eqn:G;
-      inversion Hs; subst; reflexivity.
-  - destruct (hp_take _ (hp_idle st)) as [[c idle']|] eqn:T; [|discriminate].
-    inversion Hs; subst; clear Hs. destruct (hq_take_spec _ _ _ _ T) as [Hc [Hk _]].
-    specialize (Hidle _ Hc). unfold hq_conn_ok in Hidle.
-    destruct (rt_get_vhost (hp_routes st) (rt_canon_or_empty host) path user) as [r|] eqn:G.
-    + destruct (rq_get_vhost_best _ _ _ _ _ Hwf G) as [Hin _].
-      apply hq_key_eqb_id in Hk as [d' [l' [u' [e' Hk]]]]. rewrite Hk in Hidle.
-      destruct Hidle as [_ Hb]. simpl. rewrite (Hb r Hin eq_refl). reflexivity.
-    + destruct (cn_key c); [simpl in Hk; discriminate|contradiction].
+  intros Hinv Hs. pose proof Hinv as [Hwf _]. rewrite <- (hq_routed_spec st host path user Hwf).
+  cbn [hp_step] in Hs. eapply hq_roundtrip_out; [exact Hinv|apply hq_routed_ok_here; exact Hinv| |exact Hs].
+  intros r E. left. unfold hp_routed in E. destruct (rq_get_vhost_best _ _ _ _ _ Hwf E) as [Hin _]. exact Hin.
+Qed.
+
+Lemma hq_raced_spec st rid cc proto host path user dialed btw st' out : hq_inv st ->
+  hp_step st (HBeginRaced rid cc proto host path user dialed btw) = Some (st', out) ->
+  out = hp_spec_out rc_owner (rt_abs (hp_routes st)) host path user.
+Proof.
+  intros Hinv Hs. pose proof Hinv as [Hwf _]. rewrite <- (hq_routed_spec st host path user Hwf).
+  cbn [hp_step] in Hs.
+  destruct (hq_reg_step_facts st btw Hinv) as [Hinv1 [Hseq [Hr Hkeep]]].
+  eapply hq_roundtrip_out; [exact Hinv1| | |exact Hs].
+  - eapply hq_routed_ok_mono; [exact Hseq|exact Hr|apply hq_routed_ok_here; exact Hinv].
+  - intros r E. destruct Hkeep as [Hkeep|Hnil]; [left|right; exact Hnil].
+    apply Hkeep. unfold hp_routed in E. destruct (rq_get_vhost_best _ _ _ _ _ Hwf E) as [Hin _]. exact Hin.
 Qed.
 
 Theorem hq_request_reaches_current_best_match ops st rid cc proto host path user dialed st' out :
@@ -223,8 +349,8 @@ Proof.
   destruct (hp_step st o) as [[st1 out]|] eqn:S; [|discriminate].
   rewrite (IH _ _ Hr).
   destruct o as [d l u owner|d l u|rid cc proto host path user dialed|rid|name d l u owner|d l u|rid cc proto host path user dialed btw|chost cuser]; simpl in Ho; try contradiction; simpl in S.
-  - unfold hp_roundtrip, hp_key_of in S. destruct dialed.
-    + destruct (rt_get_vhost _ _ _ _); inversion S; subst; reflexivity.
+  - unfold hp_roundtrip in S. destruct dialed.
+    + destruct (hp_routed _ _ _ _); inversion S; subst; reflexivity.
     + destruct (hp_take _ _) as [[c i]|]; inversion S; subst; reflexivity.
   - destruct (hp_take_busy _ _) as [[c i]|]; inversion S; subst; reflexivity.
   - destruct (rt_get_vhost _ _ _ _); inversion S; subst; reflexivity.
@@ -302,48 +428,52 @@ Proof.
   - exfalso. vm_compute in R. inversion R; subst st; clear R. vm_compute in S. discriminate.
 Qed.
 
-(* ---------- a request overtaken by a registration between its routing decision and its dial ---------- *)
-(* The pool key is decided by injectRequestInfoToCtx; DialContext looks the route up again.  A request
-   for which NO route exists at the first moment is keyed by the bare host; if a route for the host is
-   registered before the dial, the new connection leads to that route's backend but is pooled under
-   the bare-host key -- the key of every later request for which no route exists.  When the route is
-   unregistered while that request is still in flight, the connection survives CloseIdleConnections,
-   and afterwards requests to a host without any route are answered by the former owner's backend. *)
-Definition hq_window_witness : list hp_op :=
-  [HBeginRaced 1 0 0 (hx "682e74657374") (hx "2f") [] true (HRegister (hx "682e74657374") [] [] 1);
-   HUnRegister (hx "682e74657374") [] [];
-   HEnd 1].
+(* ---------- a request overtaken by a registration between its routing decision and its round trip ---------- *)
+(* (before the repair 4027c37 the dial looked the route up a second time and the connection it made was
+   pooled under the key of the FIRST look-up: F-C06d) *)
+Theorem hq_overtaken_request_reaches_routed_owner ops st rid cc proto host path user dialed btw st' out :
+  Forall hq_plain_op ops -> hp_run ops = Some st ->
+  hp_step st (HBeginRaced rid cc proto host path user dialed btw) = Some (st', out) ->
+  out = hp_spec_out rc_owner (rt_abs (hp_routes st)) host path user.
+Proof. intros Hng Hr. apply hq_raced_spec. eapply hq_run_inv; eassumption. Qed.
 
-Theorem hq_unrouted_request_reaches_former_owner :
-  exists st st',
-    hp_run hq_window_witness = Some st /\
-    rt_abs (hp_routes st) = [] /\
-    hp_step st (HBegin 2 0 0 (hx "682e74657374") (hx "2f") [] false) = Some (st', HReached 1) /\
-    hp_spec_out rc_owner (rt_abs (hp_routes st)) (hx "682e74657374") (hx "2f") [] = HNotFound.
-Proof.
-  destruct (hp_run hq_window_witness) as [st|] eqn:R; [|vm_compute in R; discriminate].
-  vm_compute in R. inversion R; subst st; clear R.
-  eexists. eexists. split; [reflexivity|]. split; [vm_compute; reflexivity|].
-  split; [vm_compute; reflexivity|vm_compute; reflexivity].
-Qed.
-
-(* The same two look-ups, when a route exists at routing time: a request routed to route A = (h, "")
-   whose dial is overtaken by the registration of the more specific route B = (h, "/admin") gets a
-   connection to B's backend, pooled under A's key.  The next request that only A matches is handed
-   that connection: it reaches B's backend.  No UnRegister and no long-running request is needed. *)
-Definition hq_crosswire_witness : list hp_op :=
+(* the two former witnesses, now as positive instances *)
+Definition hq_crosswire_history : list hp_op :=
   [HRegister (hx "682e74657374") [] [] 1;
    HBeginRaced 1 0 0 (hx "682e74657374") (hx "2f61646d696e2f78") [] true
                (HRegister (hx "682e74657374") (hx "2f61646d696e") [] 2);
    HEnd 1].
+Definition hq_window_history : list hp_op :=
+  [HBeginRaced 1 0 0 (hx "682e74657374") (hx "2f") [] true (HRegister (hx "682e74657374") [] [] 1);
+   HUnRegister (hx "682e74657374") [] []].
 
-Theorem hq_request_cross_wired_to_other_route :
-  exists st st',
-    hp_run hq_crosswire_witness = Some st /\
-    hp_step st (HBegin 2 0 0 (hx "682e74657374") (hx "2f7075626c6963") [] false) = Some (st', HReached 2) /\
-    hp_spec_out rc_owner (rt_abs (hp_routes st)) (hx "682e74657374") (hx "2f7075626c6963") [] = HReached 1.
+(* a request that had no route when it was routed is never dialled and pools nothing, whatever is
+   registered before its round trip *)
+Theorem hq_unrouted_request_never_dialled ops st rid cc proto host path user dialed btw st' out :
+  Forall hq_plain_op ops -> hp_run ops = Some st ->
+  rs_best_match (rt_abs (hp_routes st)) (rt_canon_or_empty host) path user = None ->
+  hp_step st (HBeginRaced rid cc proto host path user dialed btw) = Some (st', out) ->
+  out = HNotFound /\ st' = hp_reg_step st btw.
 Proof.
-  destruct (hp_run hq_crosswire_witness) as [st|] eqn:R; [|vm_compute in R; discriminate].
-  vm_compute in R. inversion R; subst st; clear R.
-  eexists. eexists. split; [reflexivity|]. split; [vm_compute; reflexivity|vm_compute; reflexivity].
+  intros Hng Hr Hb Hs. pose proof (hq_run_inv _ _ Hng Hr) as Hinv. pose proof Hinv as [Hwf _].
+  pose proof (hq_raced_spec _ _ _ _ _ _ _ _ _ _ _ Hinv Hs) as E. unfold hp_spec_out in E. rewrite Hb in E.
+  split; [exact E|]. subst out.
+  assert (Hn : hp_routed st host path user = None).
+  { unfold hp_routed. rewrite (rq_refines (hp_routes st) _ path user Hwf). exact Hb. }
+  cbn [hp_step] in Hs. rewrite Hn in Hs. unfold hp_roundtrip in Hs. destruct dialed.
+  - inversion Hs; reflexivity.
+  - destruct (hp_take _ _) as [[c i]|]; inversion Hs.
+Qed.
+
+(* after an overtaken request the pool is as sound as before: every later request of every later
+   history still reaches exactly the owner of its own most specific route *)
+Theorem hq_no_cross_wiring_after_overtaken_request
+  ops rid0 cc0 proto0 host0 path0 user0 dialed0 btw later st rid cc proto host path user dialed st' out :
+  Forall hq_plain_op ops -> Forall hq_plain_op later ->
+  hp_run (ops ++ [HBeginRaced rid0 cc0 proto0 host0 path0 user0 dialed0 btw] ++ later) = Some st ->
+  hp_step st (HBegin rid cc proto host path user dialed) = Some (st', out) ->
+  out = hp_spec_out rc_owner (rt_abs (hp_routes st)) host path user.
+Proof.
+  intros H1 H2 Hr. apply hq_begin_spec. eapply hq_run_inv; [|exact Hr].
+  apply Forall_app. split; [exact H1|]. constructor; [exact I|exact H2].
 Qed.
